@@ -17,11 +17,15 @@ def run(ctx):
     ctx.assumptions += ['node-template constructor overrides are part of the fixed universe (t3: k, t4: x0)',
                         'in_place=False compiles; second compiles of one template are subject to known finding D40']
     behs = ac.dedupe(ac.tlc_behaviours(ctx, 'C07', CALLS, 2 if tier == 'quick' else 3,
-                                       simulate=(300, 4) if tier == 'quick' else (3000, 7),
-                                       extra=['ClearingCompiles'] if tier == 'quick' else []))
+                                       simulate=(120, 4) if tier == 'quick' else (3000, 7),
+                                       extra=['ClearingCompiles'] if tier == 'quick' else [],
+                                       circs={'c1', 'c3'} if tier == 'quick' else {'c1', 'c2', 'c3'}))
+    pair = ac.tlc_behaviours_pair(ctx, 4 if tier == 'quick' else 5)
+    ctx.notes['derived_circuit_behaviours'] = len(pair)
     ctx.notes['deviations_detected_by'] = {d: ac.vacuity(ctx, CALLS, d) for d in ('UpdateVarNoCopy', 'ApplyWritesVariations')}
+    ctx.notes['deviations_detected_by']['UpdateVarInPlaceWhenPrivate'] = ac.vacuity(ctx, ac.PAIR_CALLS, 'UpdateVarInPlaceWhenPrivate', maxlen=4)
     behs = [b for b in behs if any(c['a'] in ('update_var', 'update_edge', 'compile_nv') for c in b['calls'])]
-    ac.judge_all(ctx, behs, 'compiled model after overrides', cap=1500 if ctx.tier == "quick" else 25000)
+    ac.judge_all(ctx, behs, 'compiled model after overrides', cap=2600 if ctx.tier == "quick" else 30000, always=pair)
     for b in behs[len(behs) // 2: len(behs) // 2 + 2]:
         ctx.sample(dict(calls=b['calls'], expected_units=b['expM'], dev=b['dev']))
 
